@@ -323,6 +323,13 @@ fn cut_points(env: &Env, rng: &mut Rng, all_upto: u64, sample: u64) -> (Vec<u64>
     }
     v.sort();
     v.dedup();
+    // keep the cost of a sampled file comparable to an exhaustive one
+    let cap = all_upto.max(600) as usize;
+    if v.len() > cap {
+        let step = v.len().div_ceil(cap);
+        let off = rng.below(step as u64) as usize;
+        v = v.into_iter().skip(off).step_by(step).collect();
+    }
     (v, false)
 }
 
@@ -332,8 +339,14 @@ fn enum_c08(ctx: &mut Ctx, seed: u64) -> Result<(), String> {
     base.load_key = base.key;
     let mut env = prepare(&base)?;
     let len = env.ref_bytes.len() as u64;
-    let limit = if ctx.tier_thorough { 4096 } else { 1200 };
-    let (points, exhaustive) = cut_points(&env, &mut rng, limit, 128);
+    // a save through bzip2 costs ~1-2 ms (the encoder allocates and initialises ~8 MB): enumerate smaller files there
+    let limit = match (ctx.tier_thorough, base.container.compressed()) {
+        (true, false) => 4096,
+        (true, true) => 1500,
+        (false, false) => 1200,
+        (false, true) => 350,
+    };
+    let (points, exhaustive) = cut_points(&env, &mut rng, limit, if base.container.compressed() { 32 } else { 128 });
     let variant = rng.below(4);
     ctx.count(&format!("enum.c08.variant{}", variant), 1);
     if exhaustive {
@@ -399,8 +412,13 @@ fn enum_c07(ctx: &mut Ctx, seed: u64) -> Result<(), String> {
     let mut base = gen::gen_base("C07", &mut rng, !ctx.tier_thorough, seed);
     base.load_key = base.key;
     let mut env = prepare(&base)?;
-    let limit = if ctx.tier_thorough { 8192 } else { 1500 };
-    let (points, exhaustive) = cut_points(&env, &mut rng, limit, 512);
+    let limit = match (ctx.tier_thorough, base.container.compressed()) {
+        (true, false) => 8192,
+        (true, true) => 2500,
+        (false, false) => 1500,
+        (false, true) => 500,
+    };
+    let (points, exhaustive) = cut_points(&env, &mut rng, limit, if base.container.compressed() { 64 } else { 512 });
     ctx.count(if exhaustive { "enum.files_exhaustive" } else { "enum.files_sampled" }, 1);
     let noise = if rng.chance(1, 2) { gen::benign_plan(&mut rng, &env, env.ref_read_calls, true) } else { IoPlan::default() };
     for &k in &points {
@@ -1025,8 +1043,13 @@ fn main() {
             }
             while i < to {
                 ctx.journal.line(&format!("BEGIN {}", i));
+                let t0 = std::time::Instant::now();
+                let e0 = ctx.stats.counters.get("evals").copied().unwrap_or(0);
                 run_job(&mut ctx, &prop, seed, i);
                 ctx.journal.line(&format!("END {} {}", i, ctx.viol_count));
+                if std::env::var("SIM_SLOW").is_ok() && t0.elapsed().as_millis() > 1500 {
+                    eprintln!("slow job {}: {} ms, {} evals", i, t0.elapsed().as_millis(), ctx.stats.counters.get("evals").copied().unwrap_or(0) - e0);
+                }
                 i += stride;
                 completed_to = i;
                 // the wall clock bounds the batch only; it never influences any simulated decision
